@@ -1,8 +1,189 @@
 import Karp.Driver.Proto
+import Karp.Model.Reapers
+import Karp.Spec.Reapers
 
 namespace Karp.Driver.C16
-open Lean Karp.Driver
+open Lean Karp.Driver Karp.Reapers Karp.Spec.Reapers
 
-def handle : Handler := fun op _ _ => .error s!"unknown op {op}"
+def parseFault (s : String) : Except String Fault :=
+  match s with
+  | "" => pure .none
+  | "err" => pure .err
+  | "notfound" => pure .notFound
+  | "conflict" => pure .conflict
+  | _ => .error s!"bad fault class {s}"
+
+def faultD (j : Json) (k : String) : Except String Fault :=
+  match fldOpt j k with
+  | none => pure .none
+  | some v => do parseFault (← asStr v)
+
+def faultListD (j : Json) (k : String) : Except String (List Fault) := do
+  (← arrD j k).mapM (fun v => do parseFault (← asStr v))
+
+/-- condition status; `none` = the condition is absent from the object -/
+def parseTri (s : String) : Except String (Option Tri) :=
+  match s with
+  | "True" => pure (some .true_)
+  | "False" => pure (some .false_)
+  | "Unknown" => pure (some .unknown)
+  | "" => pure none
+  | _ => .error s!"bad condition status {s}"
+
+def outJson (o : Out) : Json :=
+  jObj [("deletes", jNat o.deletes), ("requeueNs", jInt o.requeue), ("err", jBool o.err)]
+
+/-! ### c16.expiration -/
+
+def expirationOp (inp impl : Json) : Except String Resp := do
+  let i : ExpIn := {
+    managed := ← boolF inp "managed", deleting := ← boolF inp "deleting",
+    expireAfter := ← intO inp "expireAfter", created := ← intF inp "created", now := ← intF inp "now",
+    deleteFault := ← faultD inp "deleteFault" }
+  let m := expiration i
+  let deletes ← natF impl "deletes"
+  let ok := deletes == 0 || expirationMayDelete i.expireAfter i.created i.now
+  let why := if ok then "" else
+    match i.expireAfter with
+    | none => "expiration issued a Delete although expiry is disabled (expireAfter = Never)"
+    | some d => s!"expiration issued a Delete {i.created + d - i.now} ns before creation + expireAfter"
+  pure { model := some (outJson m), spec := some ok, why := why }
+
+/-! ### c16.gc, c16.gc_lookup -/
+
+def sortStrings (l : List String) : List String := (l.toArray.qsort (· < ·)).toList
+
+def parseGC (inp : Json) : Except String GCIn := do
+  let claims ← (← arrD inp "claims").mapM (fun j => do
+    let reg := (← parseTri (← strF j "registered")).getD .unknown
+    pure ({ name := ← strF j "name", pid := ← strF j "pid", registered := reg,
+            deleting := ← boolF j "deleting", managed := ← boolF j "managed" } : Claim))
+  let provider ← (← arrD inp "provider").mapM (fun j => do
+    pure ({ pid := ← strF j "pid", deleting := ← boolF j "deleting" } : Inst))
+  let nodes ← (← arrD inp "nodes").mapM (fun j => do
+    pure ({ name := ← strF j "name", pid := ← strF j "pid", ready := (← strF j "ready") == "True" } : GNode))
+  let dfs ← (← arrD inp "deleteFaults").mapM (fun j => do
+    pure ((← strF j "name"), (← parseFault (← strF j "fault"))))
+  let lf ← (← arrD inp "nodeListFaultPids").mapM asStr
+  pure { claims, provider, nodes, listClaimsFault := ← boolD inp "listClaimsFault" false,
+         providerListFault := ← boolD inp "providerListFault" false, lookupFault := lf, deleteFaults := dfs }
+
+def gcOp (inp impl : Json) : Except String Resp := do
+  let i ← parseGC inp
+  let (del, err) := gc i
+  let model := jObj [("deleted", jArr ((sortStrings del).map jStr)), ("err", jBool err)]
+  let got ← (← arrD impl "deleted").mapM asStr
+  let bad := got.filter (fun d => !(i.claims.any (fun c => c.name == d && gcMayDelete i c)))
+  let why := match bad with
+    | [] => ""
+    | d :: _ =>
+      match i.claims.find? (fun c => c.name == d) with
+      | none => s!"garbage collection deleted {d}, which is not one of the NodeClaims"
+      | some c =>
+        let reasons :=
+          (if c.registered != .true_ then ["it is not Registered"] else []) ++
+          (if i.listClaimsFault then ["the NodeClaim list failed"] else []) ++
+          (if !providerLacks i c then ["the provider still lists its instance (or the provider list failed)"] else []) ++
+          (if !nodeAbsentOrNotReady i c then
+            [if i.lookupFault.contains c.pid then "its Node could not be looked up (absent / not Ready was not established)"
+             else "a Node with its provider id is Ready"] else [])
+        s!"garbage collection deleted NodeClaim {d} although " ++ "; ".intercalate reasons
+  pure { model := some model, spec := some bad.isEmpty, why := why }
+
+/-! ### c16.liveness -/
+
+def parsePool (s : String) : Except String Pool :=
+  match s with
+  | "" => pure .none
+  | "missing" => pure .missing
+  | "owned" => pure .owned
+  | "foreign" => pure .foreign
+  | _ => .error s!"bad pool mode {s}"
+
+def livenessOp (inp impl : Json) : Except String Resp := do
+  let created ← intF inp "created"
+  -- an absent dependent condition reads as Unknown since creation
+  let (launched, launchedAt) ← match ← parseTri (← strF inp "launched") with
+    | some t => do pure (t, ← intF inp "launchedAt")
+    | none => pure (Tri.unknown, created)
+  let (registered, registeredAt) ← match ← parseTri (← strF inp "registered") with
+    | some t => do pure (t, ← intF inp "registeredAt")
+    | none => pure (Tri.unknown, created)
+  let prior ← (← arrD inp "prior").mapM asBool
+  let i : LiveIn := {
+    managed := ← boolF inp "managed", deleting := ← boolF inp "deleting",
+    launched, launchedAt, registered, registeredAt, now := ← intF inp "now",
+    createOk := (← strF inp "createOutcome") == "ok",
+    pool := ← parsePool (← strF inp "pool"),
+    poolCondFalse := (← strF inp "poolCond") == "False",
+    prior, getFaults := ← faultListD inp "getFaults", patchFaults := ← faultListD inp "patchFaults",
+    deleteFaults := ← faultListD inp "deleteFaults" }
+  let m := lifecycle i
+  let model := jObj [("deletes", jNat m.deletes), ("err", jBool m.err)]
+  let deletes ← natF impl "deletes"
+  let ok := deletes == 0 ||
+    livenessMayDelete documentedLaunchTimeout documentedRegistrationTimeout i.launched i.launchedAt i.registered i.registeredAt i.now
+  let why := if ok then "" else
+    s!"liveness issued a Delete although neither timeout has passed (Launched: {repr i.launched} for {i.now - i.launchedAt} ns, Registered: {repr i.registered} for {i.now - i.registeredAt} ns)"
+  pure { model := some model, spec := some ok, why := why }
+
+/-! ### c16.repair -/
+
+def parseRNode (j : Json) : Except String RNode := do
+  let conds ← (← arrD j "conds").mapM (fun c => do
+    pure ({ type := ← strF c "type", status := ← strF c "status", since := ← intF c "since" } : NCond))
+  pure { pool := ← strF j "pool", conds }
+
+def repairOp (inp impl : Json) : Except String Resp := do
+  let policies ← (← arrD inp "policies").mapM (fun p => do
+    pure ({ type := ← strF p "type", status := ← strF p "status", toleration := ← intF p "tolerationNs" } : Policy))
+  let claims ← match ← strF inp "claims" with
+    | "one" => pure 1
+    | "none" => pure 0
+    | "dup" => pure 2
+    | s => throw s!"bad claims {s}"
+  let annot ← match ← strF inp "annot" with
+    | "" => pure Annot.none
+    | "time" => do pure (Annot.time (← intF inp "annotSec"))
+    | "garbage" => pure Annot.garbage
+    | s => throw s!"bad annot {s}"
+  let cp ← strF inp "claimPool"
+  let i : RepairIn := {
+    policies, node := ← parseRNode (← fld inp "node"), claims,
+    claimPool := if cp == "" then none else some cp,
+    claimDeleting := ← boolF inp "claimDeleting", annot,
+    others := ← (← arrD inp "others").mapM parseRNode, now := ← intF inp "now",
+    claimListFault := ← boolD inp "claimListFault" false,
+    nodeListFault := ← faultD inp "nodeListFault", patchFault := ← faultD inp "patchFault",
+    deleteFault := ← faultD inp "deleteFault" }
+  if policies.any (fun p => p.status == "") then throw "policy with an empty status is outside the model"
+  let (m, br) := repairB i
+  let deletes ← natF impl "deletes"
+  let requeue ← intF impl "requeueNs"
+  let err ← boolF impl "err"
+  -- the length of the back-off when the breaker is open is not part of the property: any positive delay
+  let requeueOk := match br with
+    | .wait => requeue == m.requeue
+    | .blocked => requeue > 0
+    | _ => requeue == 0
+  let allowed := deletes == m.deletes && err == m.err && requeueOk
+  let ok := deletes == 0 || repairMayDelete documentedUnhealthyPercent i
+  let why :=
+    if !ok then
+      (if !tolerationLasted i.policies i.node.conds i.now then "node repair issued a Delete before any unhealthy condition lasted its toleration"
+       else if i.nodeListFault != .none then "node repair issued a Delete although the pool's nodes could not be listed"
+       else s!"node repair issued a Delete although {((breakerNodes i).filter (nodeUnhealthy i.policies)).length} of {(breakerNodes i).length} nodes are unhealthy (more than {documentedUnhealthyPercent}% rounded up)")
+    else if !allowed then s!"model: {(outJson m).compress} branch {repr br}"
+    else ""
+  pure { allowed := some allowed, spec := some ok, why := why, extra := some (outJson m) }
+
+def handle : Handler := fun op inp impl =>
+  match op with
+  | "c16.expiration" => expirationOp inp impl
+  | "c16.gc" => gcOp inp impl
+  | "c16.gc_lookup" => gcOp inp impl
+  | "c16.liveness" => livenessOp inp impl
+  | "c16.repair" => repairOp inp impl
+  | _ => .error s!"unknown op {op}"
 
 end Karp.Driver.C16
